@@ -108,7 +108,8 @@ def build(c):
              # a logger among the survivors: it is owed a copy of every acknowledgement, also of the one during whose
              # fan-out a departing logger is found dead
              ["open", "G"], ["hello", "G", {"mod_id": 13, "logger": 1}], ["drain"],
-             ["open", "G2"], ["hello", "G2", {"mod_id": 14, "logger": 1}], ["open", "G3"], ["hello", "G3", {"mod_id": 15, "logger": 1}], ["drain"],
+             # (G2 and G3 are two instances of one module id: every logger connection is owed its copies)
+             ["open", "G2"], ["hello", "G2", {"mod_id": 14, "logger": 1, "allow_multiple": 1}], ["open", "G3"], ["hello", "G3", {"mod_id": 14, "logger": 1, "allow_multiple": 1}], ["drain"],
              ["sub", "M", W.MT_CLIENT_CLOSED], ["sub", "M", W.MT_CLIENT_INFO], ["sub", "M", W.MT_FAILED_MESSAGE],
              ["sub", "S", T], ["drain"]]
     if c.get("tm"):
@@ -354,7 +355,7 @@ def judge(sc, c, n_before):
                 V.append({"mech": "unexpected_delivery", "detail": f"pub {pid} reached {L} (must={p['must']})"})
     # the surviving logger's copies of the acknowledgements owed to the survivors (P, M, S, the newcomer and the reconnected ones)
     from collections import Counter as _Cn
-    for G, gid in (("G", 13), ("G2", 14), ("G3", 15)):
+    for G, gid in (("G", 13), ("G2", 14), ("G3", 14)):
         if G not in rx:
             continue
         owed, g_round = _Cn(), None
